@@ -12,6 +12,9 @@ import VsgModel.Engine.Extract2
 import VsgModel.Engine.Extract3
 import VsgModel.Engine.Extract4
 import VsgModel.Engine.Extract5
+import VsgModel.Engine.Extract6
+import VsgModel.Engine.Extract7
+import VsgModel.Engine.Extract8
 namespace Vsgm.TM.X.Cli
 open Vsgm Vsgm.TM Vsgm.TM.X
 
@@ -109,6 +112,28 @@ def extract2 (V : View α) (hier : α → Option Int) (enc : Toi α → String) 
      | .ok (some l) => showTois enc (.ok l))
   | ["get_tokens_starting_with_token_and_ending_with_one_of_possible_tokens", ss, es, pc, is, ie, ea] =>
     showTois enc (startingEnding V (pcls pc) f ix (clsList ss) (clsList es) (is == "1") (ie == "1") (ea == "1"))
+  | ["get_line_below_line_ending_with_several_possible_tokens", st, es] => showTois enc (lineBelowSeveral f ix (keyOf st) (clsList es))
+  | ["get_blank_lines_below_line_ending_with_several_possible_tokens", st, es] => showTois enc (blankBelowSeveral f ix (keyOf st) (clsList es))
+  | ["get_column_of_token_index", i] =>
+    (match columnOf V f ix (parseInt i) with
+     | .error e => showErr e
+     | .ok c => s!"ok {c}")
+  | ["get_consecutive_lines_starting_with_token", t, n] => showTois enc (consecutiveLines f ix (keyOf t) n.toNat!)
+  | ["get_consecutive_lines_starting_with_token_and_stopping_when_token_starting_line_is_found", a, b] =>
+    showTois enc (consecutiveLinesStopping f ix (keyOf a) (keyOf b))
+  | ["get_tokens_in_declarative_parts", ks] =>
+    (match pairList ks with
+     | [a, b, c, d, e, g, h, i] =>
+       showTois enc (declarativeParts V f ix { prot := a, arch := b, pkgBody := c, subp := d, pkg := e, process := g, entity := h, block := i })
+     | _ => "unknown")
+  | ["get_blank_lines_above_line_starting_with_use_clause", cs, semis, lib] =>
+    -- the value field carries `<previous position | N>/<current position>`
+    (match blankAboveUseClause f ix (clsList cs) ((if semis.isEmpty then [] else semis.splitOn ",").map keyOf) (keyOf lib) with
+     | .error e => showErr e
+     | .ok l => "ok " ++ ";".intercalate (l.map fun tpc =>
+         match (enc { tpc.1 with value := none }).splitOn "," with
+         | [a, b, _, d] => s!"{a},{b},{match tpc.2.1 with | some p => toString p | none => "N"}/{tpc.2.2},{d}"
+         | _ => "?"))
   | _ => "unknown"
 
 end Vsgm.TM.X.Cli
